@@ -890,6 +890,15 @@ class Ctx:
                 fname = alt
                 f = prog.funcs[alt]
         if f is None:
+            # a provided (default) method of a crate trait: `<T as Trait>::m` with no `m` in the impl → the trait's own body
+            mo_tr = re.match(r"<(.+) as ([A-Za-z_][A-Za-z0-9_:]*)(?:<.*>)?>::([A-Za-z_][A-Za-z0-9_]*)$", fname)
+            if mo_tr:
+                trait, method = mo_tr.group(2).split("::")[-1], mo_tr.group(3)
+                cands = [n for n in prog.funcs if n == "%s::%s" % (trait, method) or n.endswith("::%s::%s" % (trait, method))]
+                if len(cands) == 1 and not self.ex.models.has_model(fname):
+                    fname = cands[0]
+                    f = prog.funcs[fname]
+        if f is None:
             return self.ex.models.call(self, fname, args)
         override = self.ex.models.override(fname)
         if override is not None:
